@@ -1280,6 +1280,26 @@ func (env *rEnv) call(n *rNode) Value {
 			}
 			return sym(TFalse)
 		}
+	case "cursorSelects":
+		// cursorSelects(i, "cas"): the select list of the i-th cursor contains that plain column
+		if idx, ok := constIndex(env.eval(n.Args[0])); ok && n.Args[1].Op == "str" {
+			k := 0
+			for _, ev := range env.post.trace {
+				info, _ := ev.Extra.(*StmtInfo)
+				if ev.Kind == "sql" && info != nil && info.Kind == "select" && info.Cursor != nil {
+					if k == idx {
+						for _, it := range info.Stmt.Sel {
+							if it.Expr != nil && it.Expr.Op == "col" && strings.EqualFold(it.Expr.Name, n.Args[1].Text) {
+								return sym(TTrue)
+							}
+						}
+						return sym(TFalse)
+					}
+					k++
+				}
+			}
+			return sym(TFalse)
+		}
 	case "cursorCount":
 		k := 0
 		for _, ev := range env.post.trace {
